@@ -14,6 +14,7 @@ EXPLANATION = (
     "fail, and success is reported only through the Ok successor of every write."
     ' R4: every Ok return of the compile arm lies behind a write to the destination. R5: closed panic ledger from the opening of the destination to the exit. R6: exit statuses on the compile path are constants. R7: behind the open, only writes on the opened destination can fail (a sole opener that also writes counts as such).'
     " R8: the opening of the destination is dominated by a status line written to stdout on every path (a routine that prints on all its ways), so a dead stdout ends the command before the destination is touched."
+    " R9: no path-re-spelling call (with_extension, join, ..) is applied to the dest operand on its way to the opener - a destination named on the command line is opened as named."
 )
 NOT_DECIDED = ("what the kernel does under faults; preservation of a pre-existing regular file when a device fills "
                "half-way through the single write (would need write-to-temp + rename)")
@@ -331,6 +332,29 @@ def run(ctx):
             ctx.violation("open-before-first-stdout", sp_file_line(main.term(ob).get("sp")),
                           "the compile arm opens (creates / truncates) the destination before it has written anything to stdout, and prints its status there "
                           "afterwards: with stdout unwritable the process dies at that later line - non-zero exit, destination already replaced")
+    ctx.finish_rule()
+
+    # ------------------------------------------------------------------ R9
+    # "the destination" is the path the user named, when one was named: the path handed to the opener is the `dest` operand itself or, in
+    # its absence, a default made from the source's name - nothing re-spells the operand (another extension, another directory), or compile
+    # would report success without having touched the path it was given
+    ctx.rule("C08.R9", "a destination named on the command line is opened as named", floor=1)
+    RESPELL = re.compile(r"std::path::Path(Buf)?::(with_extension|with_file_name|join|set_extension|push|set_file_name|with_added_extension)$")
+    for ob, oc in opens:
+        t_o = main.term(ob)
+        ctx.instance(1)
+        bad9 = None
+        if t_o.get("args"):
+            e9 = main.expr(t_o["args"][0], 16)
+            for x in expr_walk(e9):
+                if x[0] == "call" and RESPELL.search(str(x[1])) and x[2] and any(y[0] == "field" and y[2] == "dest" for y in expr_walk(x[2][0])):
+                    bad9 = x
+                    break
+        ctx.oblig(bad9 is None, {"opened path": expr_str(main.expr(t_o["args"][0], 8, stop={"named"}), 60) if t_o.get("args") else "?"}, "no re-spelling of the dest operand")
+        if bad9 is not None:
+            ctx.violation("dest-respelled|%s" % short(str(bad9[1])).rsplit("::", 1)[-1], sp_file_line(t_o.get("sp")),
+                          "the path that is opened is the named destination changed by `%s`: `compile src.asm out.obj` then writes another file, reports success, and "
+                          "leaves `out.obj` as it was (a destination that cannot be written is never even tried)" % short(str(bad9[1])))
     ctx.finish_rule()
 
 
